@@ -3,11 +3,12 @@
 
     c01 <cfg> <n>  <spec>*n  <op>*
       cfg  : nodata | stored | loaded
-      spec : I <val> | F ref j | F cat k j*k | F add a b | F sum k j*k | F cnt k j*k | F idx r row col
+      spec : I <val> | F ref j | F cat k j*k | F add a b | F sub a b | F eq a b | F sum k j*k | F cnt k j*k
+             | F idx r row col
              | R <rows> <cols> j*(rows*cols)
-      op   : S i <val> | E i
+      op   : S i <val> | E i | M k (i <val>)*k  (set_value of a range / list of cells) | X k i*k  (evaluate of a list)
   Answer: one item per operation joined by ';' — the value returned by `evaluate` (scalar token, or `a:r:c v…` for a
-  range), `ok`/`rej` for a `set_value` (rej = the address is not a value cell in the cell map: AssertionError).
+  range; the values of an evaluated list joined by '&'), `ok`/`rej` for a `set_value` (rej = the address is not a value cell in the cell map: AssertionError).
   The model runs with the repaired equality test `typedEq`.  Trusted glue, not part of any theorem.
 -/
 import Pycel.Model.Proto
@@ -30,6 +31,8 @@ partial def parseSpecs : Nat → List String → Option (List Spec × List Strin
       | "I" :: v :: rest => do some (Spec.inp (← Val.dec? v), rest)
       | "F" :: "ref" :: j :: rest => do some (Spec.fml (.ref (← j.toNat?)), rest)
       | "F" :: "add" :: a :: b :: rest => do some (Spec.fml (.add (← a.toNat?) (← b.toNat?)), rest)
+      | "F" :: "sub" :: a :: b :: rest => do some (Spec.fml (.sub (← a.toNat?) (← b.toNat?)), rest)
+      | "F" :: "eq" :: a :: b :: rest => do some (Spec.fml (.eq (← a.toNat?) (← b.toNat?)), rest)
       | "F" :: "idx" :: r :: row :: col :: rest => do
           some (Spec.fml (.idx (← r.toNat?) (← row.toNat?) (← col.toNat?)), rest)
       | "F" :: "cat" :: k :: rest => do
@@ -50,14 +53,31 @@ partial def parseSpecs : Nat → List String → Option (List Spec × List Strin
     let (sps, rest) ← parseSpecs k rest
     some (sp :: sps, rest)
 
-partial def parseOps : List String → Option (List (Op EV))
+partial def takePairs : Nat → List String → Option (List (Nat × EV) × List String)
+  | 0, ts => some ([], ts)
+  | k+1, i :: v :: ts => do
+    let i ← i.toNat?
+    let v ← Val.dec? v
+    let (ps, rest) ← takePairs k ts
+    some ((i, .sc v) :: ps, rest)
+  | _, _ => none
+
+partial def parseOps : List String → Option (List (OpX EV))
   | [] => some []
   | "S" :: i :: v :: rest => do
     let ops ← parseOps rest
-    some (.set (← i.toNat?) (.sc (← Val.dec? v)) :: ops)
+    some (.op (.set (← i.toNat?) (.sc (← Val.dec? v))) :: ops)
   | "E" :: a :: rest => do
     let ops ← parseOps rest
-    some (.eval (← a.toNat?) :: ops)
+    some (.op (.eval (← a.toNat?)) :: ops)
+  | "M" :: k :: rest => do
+    let (ps, rest) ← takePairs (← k.toNat?) rest
+    let ops ← parseOps rest
+    some (.setMany ps :: ops)
+  | "X" :: k :: rest => do
+    let (js, rest) ← takeNats (← k.toNat?) rest
+    let ops ← parseOps rest
+    some (.evalMany js :: ops)
   | _ => none
 
 def encEV : EV → String
@@ -72,14 +92,24 @@ def storedOf (wb : Workbook) (f : Nat → (Nat → EV) → EV) (inp : Nat → EV
     | .formula => s.cache j
     | _ => none
 
-def runOps (wb : Workbook) (f : Nat → (Nat → EV) → EV) : State EV → List (Op EV) → List String
+def accepted (wb : Workbook) (s : State EV) (i : Nat) : Bool :=
+  decide (i < wb.n) && decide (wb.kind i = .input) && s.built i
+
+/-- do all cells of a multi-cell write get written (no AssertionError)?  `built` is not changed by writes. -/
+def allAccepted (wb : Workbook) (s : State EV) (l : List (Nat × EV)) : Bool := l.all fun p => accepted wb s p.1
+
+def runOps (wb : Workbook) (f : Nat → (Nat → EV) → EV) : State EV → List (OpX EV) → List String
   | _, [] => []
-  | s, .set i v :: h =>
-    let ok := decide (i < wb.n) && decide (wb.kind i = .input) && s.built i
-    (if ok then "ok" else "rej") :: runOps wb f (setValue wb typedEq i v s) h
-  | s, .eval a :: h =>
+  | s, .op (.set i v) :: h =>
+    (if accepted wb s i then "ok" else "rej") :: runOps wb f (setValue wb typedEq i v s) h
+  | s, .op (.eval a) :: h =>
     let r := evaluate wb f a s
     (if a < wb.n then encEV r.1 else "!unknown-node") :: runOps wb f r.2 h
+  | s, .setMany l :: h =>
+    (if allAccepted wb s l then "ok" else "rej") :: runOps wb f (setMany wb typedEq l s) h
+  | s, .evalMany l :: h =>
+    let r := evalMany wb f l s
+    (if l.all (· < wb.n) then "&".intercalate (r.1.map encEV) else "!unknown-node") :: runOps wb f r.2 h
 
 def handle : List String → String
   | "c01" :: cfg :: n :: rest =>
